@@ -160,6 +160,28 @@ class Compound:
 
 
 @dataclass
+class Amount:
+    value: int = field(default=0, metadata={"type": "Element"})
+
+
+@dataclass
+class Label:
+    """Same field name as Amount, another primitive type; the values never read as an int, so that exactly one
+    member of Union[Amount, Label] can hold them (strict conversion is what tells the two apart)."""
+
+    value: str = field(metadata={"type": "Element", "xv_values": ["t", "a b", "x-y", "1e", "0x1", "one"]})   # required: an empty <value/> reads as Amount()
+
+
+@dataclass
+class UnionModels:
+    class Meta:
+        namespace = NS_A
+
+    m: Optional[Union[Amount, Label]] = field(default=None, metadata={"type": "Element"})
+    ms: list[Union[Amount, Label]] = field(default_factory=list, metadata={"type": "Element"})
+
+
+@dataclass
 class UnionEl:
     """elements typed with a union of a model and primitives (UnionNode: candidates are replayed and scored)."""
 
@@ -202,8 +224,8 @@ class Order:
     any_attr: Optional[object] = field(default=None, metadata={"type": "Element", "name": "anyType"})
 
 
-ROOTS = [Leaf, Item, Holder, QNames, Prims, Seq, Compound, UnionEl, Wild, Mixed, Order]
-ALL = [Leaf, Item, Base, Derived, Holder, QNames, Prims, Seq, Compound, UnionEl, Wild, Mixed, Order]
+ROOTS = [Leaf, Item, Holder, QNames, Prims, Seq, Compound, UnionEl, UnionModels, Wild, Mixed, Order]
+ALL = [Leaf, Item, Base, Derived, Holder, QNames, Prims, Seq, Compound, Amount, Label, UnionEl, UnionModels, Wild, Mixed, Order]
 
 HOSTILE_MAPS: list[dict | None] = [
     None,
@@ -349,7 +371,8 @@ class Gen:
         if tp is object or tp is Any:
             if meta.get("type") == "Wildcard":
                 return self.any_value(depth - 1)
-            return r.choice(["s", 5, True, 1.5, Decimal("2.5"), QName(NS_A, "q"), XmlDate(2020, 1, 2), None])
+            # (falsy values too: their xsi:type marker is what keeps 0 from coming back as '0')
+            return r.choice(["s", 5, True, 1.5, Decimal("2.5"), QName(NS_A, "q"), XmlDate(2020, 1, 2), None, 0, False, 0.0, Decimal("0")])
         if dataclasses.is_dataclass(tp):
             if depth <= 0:
                 return None if meta.get("_optional") else self.instance(tp, 0)
@@ -370,7 +393,7 @@ class Gen:
             meta["_optional"] = optional
             if optional and self.r.random() < 0.25:
                 continue
-            v = self.value(tp, meta, depth)
+            v = self.r.choice(meta["xv_values"]) if "xv_values" in meta else self.value(tp, meta, depth)
             if v is None and not (type(None) in typing.get_args(tp) or tp is object):
                 continue
             kw[f.name] = v
